@@ -57,3 +57,22 @@ func VerifH_C01_real_foreach_siblings() {
 	verifrt.Assert(s1.live == 0 && s2.live == 0, "no item run is still in flight after the run returned")
 	verifrt.Assert(verifrt.LiveGoroutines() == 0, "no goroutine survives the run")
 }
+
+// C09 / composition: one REAL loop step whose items all succeed, inside the real run loop; one goroutine
+// may be slow at any one point for as long as it takes everything else (the detector's retries included)
+// to come to rest. The run still returns the success output.
+func VerifH_C09_real_foreach() {
+	sub := &vSub{gate: make(chan struct{}), outcome: []int{0}}
+	close(sub.gate)
+	var rn step.RunnableStep = &runnableStep{workflow: sub, logger: vLogger{}}
+	p := workflow.VerifPrepareSteps([]workflow.VerifStep{{ID: "l1", Runnable: rn, Fields: map[string]any{"items": workflow.VerifExpr("input")}}},
+		map[string]any{"success": map[any]any{"a": workflow.VerifExpr("steps", "l1", "outputs", "success", "data")}})
+	res := workflow.VerifRun(p, any([]any{verifrt.NondetVal("item")}))
+	verifrt.Assert(!res.Stuck, "the run returns")
+	verifrt.Assert(res.Err == nil && res.ID == "success", "a healthy loop returns its success output however slow one goroutine is")
+	if res.Err == nil {
+		verifrt.Reach("output")
+	}
+	verifrt.Settle()
+	verifrt.Assert(verifrt.LiveGoroutines() == 0, "no goroutine survives the run")
+}
